@@ -59,7 +59,7 @@ MATRIX = _matrix()
 
 
 def streams(ctx):
-    return [("matrix", len(MATRIX)), ("random", ctx.scale(1800, 10000)), ("shapes", ctx.scale(900, 6000))]
+    return [("matrix", len(MATRIX)), ("random", ctx.scale(1800, 10000)), ("shapes", ctx.scale(900, 6000)), ("big", ctx.scale(60, 800))]
 
 
 def gen_case(ctx, stream, idx):
@@ -67,6 +67,8 @@ def gen_case(ctx, stream, idx):
     if stream == "matrix":
         tk, dk, n, pos = MATRIX[idx]
         return irgen.matrix_ir(r, tk, dk, n, pos, with_return=idx % 2 == 1)
+    if stream == "big":
+        return irgen.rand_ir(r, type_kinds=CORE_T, default_kinds=CORE_D, nparams=r.randint(10, 24), max_params=24)
     if stream == "shapes":
         # nested / single-member / spaced-member / double-quoted Literal types, delimiter characters in str defaults,
         # punctuation in descriptions (help texts, docstrings)
@@ -249,9 +251,7 @@ def check_argparse(P, ctxd, fmt, cfg, ir, ns, src):
         if base.startswith("Literal["):
             members = tuple(ast.literal_eval(base[len("Literal"):]))
             if a.choices is None or tuple(a.choices) != members:
-                dev(P, ctxd, fmt, cfg, "choices", "differ", tk, dk, "%s: choices=%r for %s" % (name, a.choices, typ), src,
-                    mech="argparse.single-member-literal-without-choices" if len(members) == 1 and a.choices is None
-                    else None)
+                dev(P, ctxd, fmt, cfg, "choices", "differ", tk, dk, "%s: choices=%r for %s" % (name, a.choices, typ), src)
         elif a.choices is not None:
             dev(P, ctxd, fmt, cfg, "choices", "unexpected", tk, dk, "%s: choices=%r for %s" % (name, a.choices, typ), src)
         # default
